@@ -1,21 +1,27 @@
 #!/bin/bash
-# Run every quick check against every seeded change in a scratch worktree (never in /repo).
-# usage: seed_matrix.sh [seed-dir-names...]   -> writes /verif/seeded/MATRIX.tsv lines "seed<TAB>check<TAB>exit"
+# Run every quick check (no minimisation) against seeded changes in a scratch worktree (never in /repo).
+# usage: seed_matrix.sh [seed-dir-names...]   -> /tmp/matrix_out_$TAG.tsv lines "seed<TAB>check<TAB>exit"
+# env: TAG (scratch suffix), W (workers per check), CHECKS, SNAP=1 (run from a private copy of /verif), SKIPOWN=1
 set -u
-WT=/tmp/wt_matrix
+TAG=${TAG:-0}
+WT=/tmp/wt_matrix_$TAG
+V=/verif
+if [ -n "${SNAP:-}" ]; then V=/tmp/verif_msnap_$TAG; rm -rf $V; mkdir -p $V; rsync -a --exclude replays --exclude .git --exclude scratch /verif/ $V/; fi
 git -C /repo worktree remove --force $WT 2>/dev/null
 git -C /repo worktree add -q --detach $WT HEAD || exit 1
 cp /repo/numpoly/cfunctions/*.so $WT/numpoly/cfunctions/
-OUT=/tmp/matrix_out.tsv; : > $OUT
+OUT=/tmp/matrix_out_$TAG.tsv; : > $OUT
 seeds="$@"; [ -z "$seeds" ] && seeds=$(ls /verif/seeded | grep -E '^C[0-9]+-')
 for seed in $seeds; do
   git -C $WT checkout -q -- .
   git -C $WT apply /verif/seeded/$seed/patch.diff || { echo "$seed PATCH-FAILS" >> $OUT; continue; }
   for c in ${CHECKS:-C07 C11 C12 C13 C14 C15 C16 C17 C18 C19 C20}; do
-    (cd /verif && VERIF_REPO=$WT PYTHONPATH=$WT timeout 900 ./check $c --no-min --workers ${W:-8} >/tmp/matrix_last.txt 2>/dev/null); rc=$?
+    [ -n "${SKIPOWN:-}" ] && [ "$c" = "${seed%%-*}" ] && continue
+    (cd $V && VERIF_REPO=$WT PYTHONPATH=$WT VERIF_WALL_CAP=300 timeout 400 ./check $c --no-min --workers ${W:-8} >/tmp/matrix_last_$TAG.txt 2>/dev/null); rc=$?
     echo -e "$seed\t$c\t$rc" >> $OUT
   done
 done
 git -C $WT checkout -q -- .
 git -C /repo worktree remove --force $WT
+[ -n "${SNAP:-}" ] && rm -rf $V
 echo done >> $OUT
